@@ -117,6 +117,17 @@ pub open spec fn declared_symbol(s: asg::Stmt) -> Option<SymbolIdResult> {
         _ => None,
     }
 }
+/// C06: the statements that have a translation (the others are evaluated: include, version line, annotation)
+pub open spec fn translated(s: synast::Stmt) -> bool { !(s is Include || s is VersionString || s is AnnotationStatement) }
+/// C06: a block of the graph holds exactly the translations of its statements, in order: one graph statement of the right kind
+/// per translated source statement, none for the others
+pub open spec fn block_ok(ss: Seq<synast::Stmt>, r: Seq<asg::Stmt>) -> bool
+    decreases ss.len()
+{
+    if ss.len() == 0 { r.len() == 0 }
+    else if translated(ss.last()) { r.len() > 0 && stmt_kind_ok(ss.last(), Some(r.last())) && block_ok(ss.drop_last(), r.drop_last()) }
+    else { block_ok(ss.drop_last(), r) }
+}
 /// C07: a classical declaration standing directly in a block (or at top level) binds -- or finds already bound -- its name in
 /// the scope of THAT block: the scope that is current where the statement stands
 pub open spec fn decl_bound(c: Context, s: synast::Stmt) -> bool {
